@@ -234,7 +234,11 @@ def generate(rng, tier):
         elif r < 0.62 and synced_cands:
             ops.append({"op": "synced", "comp": rng.choice(synced_cands)})
         elif r < 0.74:
-            ops.append({"op": "get_palette", "comp": rng.choice(synced_cands) if synced_cands and rng.random() < 0.4 else None})
+            if rng.random() < 0.25:
+                # a palette of a configuration the caller does not keep: ColorsConfig(explicit).get_palette()
+                ops.append({"op": "orphan_palette", "gc": rng.random() < 0.5})
+            else:
+                ops.append({"op": "get_palette", "comp": rng.choice(synced_cands) if synced_cands and rng.random() < 0.4 else None})
         elif r < 0.79:
             # a report is only a view: asking for one (also of the global configuration) changes nothing
             ops.append({"op": "report", "of": rng.choice(["M", "M", "G"])})
@@ -338,6 +342,7 @@ class World:
         self.quarantine = set()
         self.used = []          # components registered in M (names)
         self.synced = []        # [(name, palette)]
+        self.orphans = []       # palettes whose configuration object the caller dropped: [(palette, registry)]
         self.held = []          # palettes obtained earlier and kept: [(palette, comp name | None, {id: style then})]
         self.delivered_log = []  # canonical record of what M received: [("comp", name) | ("batch", items)]
 
@@ -549,6 +554,18 @@ class World:
             self.held.pop(0)
         self.held.append((pal, name, then))
         self.stats["held"] = self.stats.get("held", 0) + 1
+
+    def check_orphans(self):
+        """a palette outlives the caller's reference to its configuration: it goes on showing that configuration"""
+        nc = self.no_color
+        for pal, reg in self.orphans:
+            ids = sorted(set(reg.items) | {"NOPE.O"})
+            for sid in ids[:: max(1, len(ids) // 5)]:
+                self.compare(self.decode(self.sut("orphan palette[id]", pal.__getitem__, sid), "orphan-palette[id]", sid),
+                             reg.style(sid, nc), "orphan-palette", sid)
+            for acc, sid in GLOBAL_ACCESSORS.items():
+                self.compare(self.decode(getattr(pal, acc), f"orphan-palette.{acc}", sid), reg.style(sid, nc),
+                             "orphan-palette-accessor", sid)
 
     def check_held(self, reg):
         nc = self.no_color
@@ -790,6 +807,19 @@ def execute(trace, rng):
                 if not isinstance(text, str):
                     raise Violation("report", "not-a-text", repr(type(text)))
                 w.stats["reports_midway"] = w.stats.get("reports_midway", 0) + 1
+            elif k == "orphan_palette":
+                conf2 = w.sut("ColorsConfig(init) (temporary)", w.conf_cls, real_init(trace), no_color=nc)
+                reg2 = Registry()
+                reg2.deliver(flatten(real_init(trace) or {}))
+                reg2.deliver(w.builtin_flat)
+                pal2 = w.sut("get_palette", conf2.get_palette)
+                del conf2
+                if op.get("gc"):
+                    rw.gc.collect()
+                if len(w.orphans) >= 2:
+                    w.orphans.pop(0)
+                w.orphans.append((pal2, reg2))
+                w.stats["orphan_palettes"] = w.stats.get("orphan_palettes", 0) + 1
             elif k == "get_palette":
                 w.hold(M, regM, op.get("comp") if op.get("comp") in w.used else None)
             else:
@@ -797,6 +827,7 @@ def execute(trace, rng):
             log.add("op", n, k, op.get("comp"))
             w.check_conf(M, regM, w.used, "M")
             w.check_held(regM)
+            w.check_orphans()
             if glabel == "tainted":
                 continue
             if G is not M:
